@@ -124,7 +124,7 @@ def rrAct {α β : Type} (c : RRCfg) (f : α → β) : RRAct → RR α β → Op
 
 def rrCands {α β : Type} (c : RRCfg) (_ : RR α β) : List RRAct :=
   [.dist, .dclose, .mrecv, .mskip, .mround, .mfin] ++
-    (List.range (c.n + 1)).flatMap (fun i => [.take i, .send i, .wclose i])
+    (List.range c.n).flatMap (fun i => [.take i, .send i, .wclose i])
 
 /-- one pseudo-randomly scheduled complete run; the observation is (out, outClosed) -/
 def rrRun (c : RRCfg) (seed : Nat) (xs : List Nat) : RR Nat Nat :=
